@@ -21,7 +21,7 @@ _SEPARATOR_RE = re.compile("[, ]+")
 _FLOAT_RE = re.compile(
     r"[-+]?"  # optional sign
     r"(?:"
-    r"(?:0|[1-9][0-9]*)(?:\.[0-9]+)?"  # int or float
+    r"(?:[0-9]+)(?:\.[0-9]+)?"  # int or float; leading zeros are part of the number
     r"|"
     r"(?:\.[0-9]+)"  # float with leading dot (e.g. '.42')
     r")"
